@@ -19,36 +19,43 @@ package rostrings
 //@ func CamelCase$1
 //@   props C18
 //@   binds value
+//@   calls toCamelCase
 //@   ensures [lifts-the-helper-over-the-item|C18] result == toCamelCase(value)
 
 //@ func Capitalize$1
 //@   props C18
 //@   binds value
+//@   calls capitalize
 //@   ensures [lifts-the-helper-over-the-item|C18] result == capitalize(value)
 
 //@ func Ellipsis$1
 //@   props C18
 //@   binds value length
+//@   calls ellipsis
 //@   ensures [lifts-the-helper-over-the-item-and-the-length|C18] result == ellipsis(value, length)
 
 //@ func KebabCase$1
 //@   props C18
 //@   binds value
+//@   calls kebabCase
 //@   ensures [lifts-the-helper-over-the-item|C18] result == kebabCase(value)
 
 //@ func PascalCase$1
 //@   props C18
 //@   binds value
+//@   calls pascalCase
 //@   ensures [lifts-the-helper-over-the-item|C18] result == pascalCase(value)
 
 //@ func SnakeCase$1
 //@   props C18
 //@   binds value
+//@   calls snakeCase
 //@   ensures [lifts-the-helper-over-the-item|C18] result == snakeCase(value)
 
 //@ func Random$1
 //@   props C18
 //@   binds size charset
+//@   calls random
 //@   ensures [draws-a-string-of-the-configured-size-and-charset|C18] result == random(size, charset)
 
 // The random-string helper itself: safety only (the drawing loop uses bit masks and a float logarithm, which are
